@@ -41,7 +41,12 @@ Struct(d, i) == <<IF d[i][1] = "disc1" THEN "disc" ELSE d[i][1],
                   IF d[i][2] # 0 THEN Struct(d, d[i][2]) ELSE <<>>,
                   IF d[i][3] # 0 /\ d[i][1] # "disc" THEN Struct(d, d[i][3]) ELSE <<>>>>
 InjectiveInv == Done => \A i, j \in 1..Len(D) : (Cmr(D, i) = Cmr(D, j)) = (Struct(D, i) = Struct(D, j))
-H2 == (Len(D) * 7 + Cardinality(item.hide)) % EmitMod
+\* a spread-out sample: position-weighted sum over operators and child indices (a plain node count never reaches 0 mod a prime above it)
+OpNum(op) == CHOOSE k \in 1..17 : <<"iden", "unit", "witness", "word0", "word1", "injl", "injr", "take", "drop", "comp", "case", "pair", "assertl", "assertr", "fail", "disc", "disc1">>[k]
+                                   = (IF op = "word" THEN "word0" ELSE op)
+RECURSIVE DagSum(_, _)
+DagSum(d, i) == IF i = 0 THEN 0 ELSE DagSum(d, i - 1) + i * (OpNum(d[i][1]) + 3 * d[i][2] + 5 * d[i][3])
+H2 == (DagSum(D, Len(D)) + 11 * Cardinality(item.hide)) % EmitMod
 Emit == (Done /\ H2 = 0) =>
   PrintT(<<"CASE", ToJson([dag |-> D, hide |-> [k \in 1..Len(D) |-> k \in item.hide],
                            cmr |-> [k \in 1..Len(D) |-> CmrG(D, k, TRUE)],
